@@ -72,16 +72,16 @@ func tryFindFirstCharClass(node *RegexNode, ccIn **CharSet) int {
 			*ccIn = cc
 		}
 		if cc.IsMergeable() {
-			cc.addChar(node.Ch)
-			cc.negate = true
-			/*if node.Ch > 0 {
+			// Everything but the excluded char can start a match. Add it as ranges: the set may
+			// already hold characters from other branches, so it cannot simply be negated.
+			if node.Ch > 0 {
 				// Add the range before the excluded char.
 				cc.addRange(0, (node.Ch - 1))
 			}
 			if node.Ch < unicode.MaxRune {
 				// Add the range after the excluded char.
 				cc.addRange(node.Ch+1, unicode.MaxRune)
-			}*/
+			}
 			if node.T == NtNotone || node.M > 0 {
 				return 1
 			}
